@@ -370,7 +370,15 @@ func (b *Bundle) RegistryPackageVersions(pkgAddr regaddr.ModulePackage) versions
 	for v := range vs {
 		ret = append(ret, v)
 	}
-	ret.Sort()
+	// Versions that differ only in build metadata have the same precedence,
+	// so precedence alone would leave them in the (random) order in which the
+	// map happened to be iterated. The metadata breaks the tie.
+	sort.Slice(ret, func(i, j int) bool {
+		if !ret[i].Same(ret[j]) {
+			return ret[i].LessThan(ret[j])
+		}
+		return ret[i].Metadata < ret[j].Metadata
+	})
 	return ret
 }
 
